@@ -202,6 +202,20 @@ class TreeMod(roundtrip.RTMod):
         if it[1] == "lazy":
             base, op, fn = it[2], it[3], it[4]
             out = []
+            if op == "skip":
+                # Iterator::skip is lazy: the first `next` advances past the skipped elements, later ones pass through
+                if fn <= 0:
+                    return [(ctl, v, ("abs", "lazy", nbase, "skip", 0), s) for ctl, v, nbase, s in self.pull(I, st, base, n) or []]
+                for ctl, v, nbase, s in self.pull(I, st, base, n) or []:
+                    if ctl != OK or not (v[0] == "enum" and v[1] == SOME):
+                        out.append((ctl, v, ("abs", "lazy", nbase, "skip", 0), s))
+                    else:
+                        out.extend(self.pull(I, s, ("abs", "lazy", nbase, "skip", fn - 1), n))
+                return out
+            if op == "take":
+                if fn <= 0:
+                    return [(OK, none(), it, st)]
+                return [(ctl, v, ("abs", "lazy", nbase, "take", fn - 1), s) for ctl, v, nbase, s in self.pull(I, st, base, n) or []]
             for ctl, v, nbase, s in self.pull(I, st, base, n) or []:
                 nit = ("abs", "lazy", nbase, op, fn)
                 if ctl != OK or not (v[0] == "enum" and v[1] == SOME):
@@ -569,6 +583,8 @@ class TreeMod(roundtrip.RTMod):
                 return [(OK, some(raw0[2][0]) if raw0[1] == NOT_NODE else none(), st)]
         if raw0 is not None and raw0[0] == "abs" and raw0[1] in ("nref", "tref") and c in ("<T as core::convert::Into<U>>::into", "core::convert::Into::into") and "NodeOrToken" in (n.get("ty", "") if isinstance(n, dict) else ""):
             return [(OK, ("enum", NOT_NODE if raw0[1] == "nref" else NOT_TOK, (raw0,)), st)]
+        if raw0 is not None and raw0[0] == "abs" and raw0[1] in ("nref", "tref") and c.startswith("rowan::api::<impl core::convert::From<rowan::api::Syntax") and "for rowan::utility_types::NodeOrToken<" in c and c.endswith(">::from"):
+            return [(OK, ("enum", NOT_NODE if raw0[1] == "nref" else NOT_TOK, (raw0,)), st)]      # SyntaxElement::from(node | token)
         # ---------------- iterators
         if raw0 is not None and raw0[0] == "abs" and raw0[1] in ("liveiter", "lazy"):
             if m == "next" and "Iterator" in c:
@@ -579,6 +595,10 @@ class TreeMod(roundtrip.RTMod):
                 return [(OK, ("abs", "lazy", raw0, m, args[1]), st)]
             if "Iterator" in c and m == "enumerate":
                 return [(OK, ("abs", "lazy", raw0, "enumerate", 0), st)]
+            if "Iterator" in c and m in ("skip", "take"):
+                k = I.deref_val(st, args[1])
+                if k[0] == "int" and isinstance(k[1], int):
+                    return [(OK, ("abs", "lazy", raw0, m, k[1]), st)]
             if m in ("into_iter", "by_ref"):
                 return [(OK, args[0] if m == "by_ref" else raw0, st)]
             if "Iterator" in c and m in ("count", "collect", "find", "any", "all", "last", "nth", "find_map", "position", "next"):
@@ -602,6 +622,51 @@ class TreeMod(roundtrip.RTMod):
                         sub = rowanmodel.RowanMod.adapter(self, I, s, m, items, args, n)
                         out.extend(sub)
                 return out
+        if raw0 is not None and raw0[0] == "abs" and raw0[1] in ("siter", "liveiter", "lazy") and c in ("core::iter::traits::iterator::Iterator::cmp", "core::iter::traits::iterator::Iterator::partial_cmp", "core::iter::traits::iterator::Iterator::eq"):
+            # lexicographic comparison of two sequences by the element type's own Ord / PartialEq
+            ORD_ = "core::cmp::Ordering::"
+            other = I.deref_val(st, args[1])
+            outs = []
+            for xs, s1 in ([(list(raw0[2][raw0[3]:]), st)] if raw0[1] == "siter" else self.drain(I, st, raw0, n)):
+                for ys, s2 in ([(list(other[2][other[3]:]), s1)] if other[0] == "abs" and other[1] == "siter" else ([(list(other[2]), s1)] if other[0] == "abs" and other[1] == "svec" else self.drain(I, s1, other, n))):
+                    if xs is None or ys is None:
+                        outs.append((OK, unk("iter-cmp"), s2))
+                        continue
+
+                    def go(i, s):
+                        if i == len(xs) or i == len(ys):
+                            o = "Equal" if len(xs) == len(ys) else ("Less" if len(xs) < len(ys) else "Greater")
+                            return [(OK, o, s)]
+                        ty = self.type_of_value(I.deref_val(s, xs[i]))
+                        key = "<%s as core::cmp::Ord>::cmp" % ty
+                        if key not in self.facts.fns:
+                            return [(OK, None, s)]
+                        sa, pa = I.newtemp(s, xs[i])
+                        sb, pb = I.newtemp(sa, ys[i])
+                        res = []
+                        for ctl, r, s3 in I.call(key, [("ref", pa), ("ref", pb)], sb, n):
+                            r = I.deref_val(s3, r) if ctl == OK else r
+                            if ctl != OK:
+                                res.append((ctl, r, s3))
+                            elif r[0] == "enum" and r[1] == ORD_ + "Equal":
+                                res.extend(go(i + 1, s3))
+                            elif r[0] == "enum" and r[1].startswith(ORD_):
+                                res.append((OK, r[1][len(ORD_):], s3))
+                            else:
+                                res.append((OK, None, s3))
+                        return res
+                    for ctl, o, s3 in go(0, s2):
+                        if ctl != OK:
+                            outs.append((ctl, o, s3))
+                        elif o is None:
+                            outs.append((OK, unk("iter-cmp"), s3))
+                        elif m == "eq":
+                            outs.append((OK, ("bool", o == "Equal"), s3))
+                        elif m == "partial_cmp":
+                            outs.append((OK, some(("enum", ORD_ + o, ())), s3))
+                        else:
+                            outs.append((OK, ("enum", ORD_ + o, ()), s3))
+            return outs
         if raw0 is not None and raw0[0] == "abs" and raw0[1] in ("siter", "liveiter", "lazy", "svec") and "Iterator" in c and m in ("skip", "chain", "rev", "take", "flatten"):
             outs = []
             srcs = [(list(raw0[2][raw0[3]:]), st)] if raw0[1] == "siter" else ([(list(raw0[2]), st)] if raw0[1] == "svec" else self.drain(I, st, raw0, n))
@@ -640,6 +705,8 @@ class TreeMod(roundtrip.RTMod):
                         outs.append((OK, ("abs", "siter", tuple(items) + tuple(other[2]), 0), s))
                     elif other[0] == "enum" and other[1] in (SOME, NONE):       # Option as IntoIterator
                         outs.append((OK, ("abs", "siter", tuple(items) + (tuple(other[2][:1]) if other[1] == SOME else ()), 0), s))
+                    elif other[0] == "tuple" and isinstance(n, dict) and "; " in str((n.get("args") or [{}])[0].get("ty", "")):
+                        outs.append((OK, ("abs", "siter", tuple(items) + tuple(other[1]), 0), s))      # an array
                     elif other[0] == "abs" and other[1] in ("lazy", "liveiter"):
                         for more, s2 in self.drain(I, s, other, n):
                             outs.append((OK, ("abs", "siter", tuple(items) + tuple(more), 0) if more is not None else unk("chain"), s2))
